@@ -1,8 +1,13 @@
 import Qryn.LogQL.Sem
-/-! Helper lemmas for C07. TO BE PROVED (no sorry may remain). -/
+import Qryn.Proofs.Like
+import Qryn.Proofs.Limit
+import Qryn.Proofs.StreamSelect
+import Qryn.Proofs.PlanRows
+/-! The theorems of C07. Supporting lemmas: Proofs/Like, Bits, Sort, Limit, SqlSemLemmas, StreamSelect,
+    FpChain, PlanRows. -/
 namespace Qryn.Sql
-theorem like_contains (s v : Bytes) : like s (37 :: likeEscape v ++ [37]) = true ↔ v <:+: s := by
-  sorry
+theorem like_contains (s v : Bytes) : like s (37 :: likeEscape v ++ [37]) = true ↔ v <:+: s :=
+  like_contains' s v
 end Qryn.Sql
 
 namespace Qryn.LogQL
@@ -11,25 +16,41 @@ open Qryn Qryn.Sql
 theorem streamSelect_eval (o : Oracles) (c : Ctx) (hn : c.namesOk) (d : LokiDb) (ms : List Matcher)
     (hm : ms.length ≤ 63) (env : Env) (v : Val) :
     v ∈ firstCol (evalBody o (d.toDb c) env (streamSelect c ms)) ↔
-      ∃ fp, v = .int fp ∧ streamSelected o c d ms fp = true := by
-  sorry
+      ∃ fp, v = .int fp ∧ streamSelected o c d ms fp = true :=
+  streamSelect_eval' o c hn d ms hm env v
 
 theorem planLog_correct (o : Oracles) (c : Ctx) (hn : c.namesOk) (d : LokiDb) (q : LogQuery)
     (hlim : 0 ≤ c.limit) (hm : q.matchers.length ≤ 63) :
     evalSel o (d.toDb c) (planLog c q) = evalLog o c d q := by
-  sorry
+  have _ := hlim -- not needed: both sides use `c.limit.toNat`
+  obtain ⟨T, rest, hchain, hT⟩ := fpChain_eval o c hn d (labelConds q) (streamSelect c q.matchers) 0 []
+    (streamSelected o c d q.matchers) (fun v => streamSelect_eval' o c hn d q.matchers hm [] v)
+  have hT' : FpTable T (fpSelected o c d q) := hT
+  unfold planLog evalSel
+  simp only [evalWiths_append, hchain, evalWiths]
+  have hmain := main_eval o c d q ((.named "fp_sel", T) :: rest) T (by simp [List.lookup]) hT'
+  rw [hmain]
+  have hts := timeSeries_eval o c hn d q ((.named "main", (limited o c d q).map mainRow) :: (.named "fp_sel", T) :: rest) T
+    (by simp [List.lookup]) hT'
+  rw [hts]
+  have hj := joined_eval o c d q ((.named "_time_series", (d.ts.filter (tsOk o c d q)).map (tsOut o)) ::
+    (.named "main", (limited o c d q).map mainRow) :: (.named "fp_sel", T) :: rest) (limited o c d q)
+    (by simp [List.lookup]) (by simp [List.lookup])
+  rw [hj, evalBody_sorted]
+  simp only [sourceRows, List.lookup, beq_self_eq_true, Option.getD_some, optB, Bool.and_self, filter_true,
+    List.map_map, Function.comp_def, Alias.text, project_final, orderKeys, evalLog, finalKeys]
 
 theorem limit_newest (o : Oracles) (c : Ctx) (d : LokiDb) (q : LogQuery) (kept cut : Sample)
     (hk : kept ∈ limited o c d q)
     (hc : cut ∈ d.samples.filter (entryMatches o c d q)) (hcut : cut ∉ limited o c d q) :
-    tsLe c kept cut = true := by
-  sorry
+    tsLe c kept cut = true :=
+  limit_newest' o c d q kept cut hk hc hcut
 
 theorem limited_sound (o : Oracles) (c : Ctx) (d : LokiDb) (q : LogQuery) (s : Sample)
-    (h : s ∈ limited o c d q) : s ∈ d.samples ∧ entryMatches o c d q s = true := by
-  sorry
+    (h : s ∈ limited o c d q) : s ∈ d.samples ∧ entryMatches o c d q s = true :=
+  limited_sound' o c d q s h
 
 theorem unlimited_complete (o : Oracles) (c : Ctx) (d : LokiDb) (q : LogQuery) (h : c.limit = 0) :
-    (limited o c d q).Perm (d.samples.filter (entryMatches o c d q)) := by
-  sorry
+    (limited o c d q).Perm (d.samples.filter (entryMatches o c d q)) :=
+  unlimited_complete' o c d q h
 end Qryn.LogQL
